@@ -1,0 +1,20 @@
+//go:build verif
+
+package server
+
+import (
+	"net/http"
+
+	"github.com/go-chi/chi/v5"
+)
+
+// VerifRoutes returns the router behind a handler created by NewServer, so that the external
+// verification harness can enumerate the registered routes. Only exists with the "verif" tag.
+func VerifRoutes(h http.Handler) chi.Routes {
+	if s, ok := h.(*server); ok {
+		if r, ok := s.handler.(chi.Routes); ok {
+			return r
+		}
+	}
+	return nil
+}
